@@ -317,6 +317,9 @@ func genPutStmt(r *Rng, allowFail bool) HistStmt {
 	if r.Chance(0.08) {
 		n = r.Range(7, 45) // longer than any batch size / small-slice special case
 	}
+	if r.Chance(0.003) {
+		n = pick(r, []int{255, 256, 257, 300, 400})
+	}
 	h := HistStmt{Kind: "put", Mode: genMode(r), Extra: genPollPattern(r)}
 	for i := 0; i < n; i++ {
 		h.Pairs = append(h.Pairs, genHistPair(r, true))
